@@ -3,3 +3,4 @@ pub mod parse;
 pub mod astwalk;
 pub mod ser;
 pub mod schema;
+pub mod introspect;
